@@ -418,22 +418,31 @@ func runTQ(c *core.Ctx, own tqOwner, g tqGen) {
 	for _, b := range bad {
 		badIDs[b.script.ID] = true
 		confirmed := false
-		for try := 0; try < 6 && !confirmed; try++ {
+		tries := 6
+		if b.status == "panic" {
+			tries = 12
+		}
+		for try := 0; try < tries && !confirmed; try++ {
 			base := filepath.Join(c.Work, fmt.Sprintf("tq-confirm-%d-%d", b.script.ID, try))
 			r2 := runDriverChunk(c, drv, base, []*tqScript{b.script})
 			if r2.status == b.status {
 				confirmed = true
 			}
 		}
-		if !confirmed {
-			c.Infra("candidate %s of script %d did not reproduce in 6 re-runs: inconclusive\n%s", b.status, b.script.ID, core.Tail(b.stderr, 1500))
+		// A Go panic raised inside the queue's own package is an observation of the real code whether or
+		// not the schedule that led to it comes back: the driver process died of it, with the goroutine
+		// dump on its stderr.  (A hang could also be a slow machine, so it still has to repeat.)
+		inQueue := b.status == "panic" && strings.Contains(b.stderr, "panic: ") && strings.Contains(b.stderr, "github.com/git-lfs/git-lfs/v3/tq.")
+		if !confirmed && !inQueue {
+			c.Infra("candidate %s of script %d did not reproduce in %d re-runs: inconclusive\n%s", b.status, b.script.ID, tries, core.Tail(b.stderr, 1500))
 		}
 		directSeen[b.status]++
 		if own.direct[b.status] {
 			cls := strings.Join(b.script.classes(), ",")
 			c.Report(core.Violation{Assertion: "direct:" + b.status,
-				Fields: map[string]string{"classes": cls, "status": b.status},
-				Detail: map[string]interface{}{"script": b.script, "stderr_tail": core.Tail(b.stderr, 2500)}})
+				Fields: map[string]string{"classes": cls, "status": b.status, "repeated": fmt.Sprint(confirmed)},
+				Detail: map[string]interface{}{"script": b.script, "stderr_tail": core.Tail(b.stderr, 2500),
+					"note": "repeated=false: the panic was observed once in a run over several scripts and did not come back when this script was re-run alone (schedule-dependent; an earlier script of the same driver process may have set it up)"}})
 		}
 	}
 	c.Set("direct_observations", directSeen)
